@@ -57,7 +57,7 @@ enum Case {
   /// { i in [0, span) | i mod step != 0 }
   Holes { span: u32, step: u32 },
   /// (b)/(c): document kind (0 CoreDocument, 1 IotaDocument), initial endpoints (0 fresh, 1 legacy),
-  /// universe id, ops (service, revoke?, batch id)
+  /// universe id, ops (service, revoke?, batch id — see `batch`)
   Hist { kind: u8, init: u8, uni: u8, ops: Vec<(u8, bool, u8)> },
 }
 
@@ -345,21 +345,49 @@ fn universe(uni: u8) -> &'static [u32] {
     &UNI5
   }
 }
-/// Batches: every subset of the universe in ascending order, then the whole universe reversed, then [u0, u0].
+/// Batches are ORDERED index sequences (duplicates allowed): id 0 = [], then every sequence of length 1, then of
+/// length 2, then of length 3 over the universe, each block in lexicographic order of universe positions.
 fn batch(uni: u8, id: u8) -> Vec<u32> {
   let u = universe(uni);
-  let n = 1u32 << u.len();
-  let id = id as u32;
-  if id < n {
-    (0..u.len()).filter(|b| id & (1 << b) != 0).map(|b| u[b]).collect()
-  } else if id == n {
-    u.iter().rev().copied().collect()
-  } else {
-    vec![u[0], u[0]]
+  let n = u.len() as u32;
+  let mut id = id as u32;
+  let mut len = 0u32;
+  let mut block = 1u32;
+  while id >= block {
+    id -= block;
+    len += 1;
+    block *= n;
   }
+  let mut out = vec![0u32; len as usize];
+  for slot in out.iter_mut().rev() {
+    *slot = u[(id % n) as usize];
+    id /= n;
+  }
+  out
 }
-fn batch_count(uni: u8) -> u8 {
-  (1u8 << universe(uni).len()) + 2
+/// Number of batches of length 0..=max_len.
+fn batch_count(uni: u8, max_len: u8) -> u8 {
+  let n = universe(uni).len() as u32;
+  let total: u32 = (0..=max_len as u32).map(|l| n.pow(l)).sum();
+  u8::try_from(total).expect("batch ids fit a u8")
+}
+/// Coarse class of a batch relative to the pre-state (for the outcome histogram).
+fn batch_class(idx: &[u32], pre: &BTreeSet<u32>, revoke: bool) -> &'static str {
+  if idx.is_empty() {
+    return "empty";
+  }
+  let distinct: BTreeSet<u32> = idx.iter().copied().collect();
+  let dup = distinct.len() < idx.len();
+  // "already" = the index is in the requested state before the op
+  let already = distinct.iter().filter(|i| pre.contains(i) == revoke).count();
+  match (dup, already == 0, already == distinct.len()) {
+    (false, true, _) => "all-to-change",
+    (false, _, true) => "all-already-in-requested-state",
+    (false, false, false) => "mixed:some-already-in-requested-state",
+    (true, true, _) => "duplicates:all-to-change",
+    (true, _, true) => "duplicates:all-already-in-requested-state",
+    (true, false, false) => "duplicates+mixed",
+  }
 }
 fn probes_of(uni: u8) -> Vec<u32> {
   let mut p = BTreeSet::new();
@@ -539,13 +567,15 @@ struct HModel {
   kind: u8,
   init: u8,
   uni: u8,
+  /// longest batch enumerated by `actions` (batch ids do not depend on it)
+  max_len: u8,
   col: Arc<Collector>,
   /// fingerprints whose per-state checks (validation, dangling queries) have been done
   seen: Mutex<HashSet<String>>,
 }
 impl HModel {
-  fn new(kind: u8, init: u8, uni: u8, col: Arc<Collector>) -> HModel {
-    HModel { kind, init, uni, col, seen: Mutex::new(HashSet::new()) }
+  fn new(kind: u8, init: u8, uni: u8, max_len: u8, col: Arc<Collector>) -> HModel {
+    HModel { kind, init, uni, max_len, col, seen: Mutex::new(HashSet::new()) }
   }
   fn case(&self, hist: &[(u8, bool, u8)]) -> Case {
     Case::Hist { kind: self.kind, init: self.init, uni: self.uni, ops: hist.to_vec() }
@@ -609,7 +639,36 @@ impl HModel {
     true
   }
 
-  /// (c) + dangling queries; done once per distinct real state.
+  /// (c), every step: `check_status` (Strict) of a credential whose canonical status entry points at each probe
+  /// index of each service reports `Revoked` iff the model holds the index.
+  fn validate_step(&self, s: &HState, case: &Case) {
+    let did = s.doc.did();
+    for k in 0..2 {
+      for i in probes_of(self.uni) {
+        let member = s.model[k].contains(&i);
+        let st: Status = RevocationBitmapStatus::new(svc_url(did, SVC[k]), i).into();
+        let cred = credential(did, Some(st));
+        self.col.eval1();
+        match guard(|| s.doc.check_status(&cred, StatusCheck::Strict)) {
+          Err(p) => self.col.violation(&format!("check_status|{}", p.key()), &p.msg, case),
+          Ok(r) => {
+            let got = res_label(&r);
+            let want = if member { "Revoked" } else { "Ok" };
+            if got != want {
+              let class = if member { format!("member|reported-{}", if got == "Ok" { "valid" } else { got }) } else { format!("non-member|reported-{got}") };
+              self.col.violation(
+                &format!("check_status|{class}"),
+                &format!("{} Strict service {} index {i}: got {got}, members {:?}, after {:?}", s.doc.kind(), SVC[k], s.model[k], s.hist),
+                case,
+              );
+            }
+          }
+        }
+      }
+    }
+  }
+
+  /// (c) variants + dangling queries; done once per distinct real state.
   fn per_state_checks(&self, s: &HState, case: &Case) {
     if !self.seen.lock().unwrap().insert(s.fp.clone()) {
       return;
@@ -756,7 +815,7 @@ impl Model for HModel {
   fn actions(&self, _s: &HState, out: &mut Vec<Self::Action>) {
     for svc in 0..2u8 {
       for revoke in [true, false] {
-        for b in 0..batch_count(self.uni) {
+        for b in 0..batch_count(self.uni, self.max_len) {
           out.push((svc, revoke, b));
         }
       }
@@ -807,9 +866,16 @@ impl Model for HModel {
         return None;
       }
     }
+    // validation after EVERY step: a credential pointing at each probe index of each service
+    self.validate_step(&n, &case);
     self.per_state_checks(&n, &case);
     let changed = n.model[k] != s.model[k];
-    self.col.outcome(&format!("op:{op}:{}", if changed { "membership-changed" } else { "no-op" }));
+    self.col.outcome(&format!(
+      "op:{op}:batch-len-{}:{}:{}",
+      idx.len(),
+      batch_class(&idx, &s.model[k], revoke),
+      if changed { "membership-changed" } else { "membership-unchanged" }
+    ));
     self.col.sample(&case);
     Some(n)
   }
@@ -823,7 +889,7 @@ fn eval(ctx: &Ctx, case: &Case) {
   match case {
     Case::Hist { kind, init, uni, ops } => {
       let col = Collector::new();
-      let m = HModel::new(*kind, *init, *uni, col.clone());
+      let m = HModel::new(*kind, *init, *uni, 3, col.clone());
       if let Some(mut st) = m.init_states().pop() {
         for a in ops {
           match m.next_state(&st, *a) {
@@ -853,7 +919,7 @@ fn run_sets(ctx: &Ctx, name: &str, cases: Vec<Case>) {
 }
 
 fn generate(ctx: &Ctx) {
-  ctx.rule("(a) complete families of u32 sets (all 4096 subsets of a 12-index universe; prefix sets; strided, multiplicative-hash, run-union and dense-with-holes sets over full parameter products), each encoded by the library and decoded back + harness-built legacy twin; (b),(c) stateright BFS to closure over revoke/unrevoke batch histories on real documents, validation judged once per distinct real document state. distinct_nontrivial = distinct set cases (every one runs the whole encode/decode path) + unique document states of (b)");
+  ctx.rule("(a) complete families of u32 sets (all 4096 subsets of a 12-index universe; prefix sets; strided, multiplicative-hash, run-union and dense-with-holes sets over full parameter products), each encoded by the library and decoded back + harness-built legacy twin; (b),(c) stateright BFS to closure over revoke/unrevoke batch histories on real documents, batches are ordered index sequences with duplicates; membership of both services and check_status of every probe index judged after every step, status-entry variants once per distinct real document state. distinct_nontrivial = distinct set cases (every one runs the whole encode/decode path) + unique document states of (b)");
   ctx.assume("roaring (portable serialisation) and flate2 (zlib) are trusted lossless codecs; the harness builds legacy endpoints with them and its own base64 encoder");
   ctx.assume("legacy form = the single text form Base64Url(zlib(roaring)) base64-encoded once more; variants on which standard and url-safe alphabets or padding would differ are recorded, not judged");
   let max = ctx.by_tier(5_000u32, 100_000u32);
@@ -920,18 +986,20 @@ fn generate(ctx: &Ctx) {
   }
   run_sets(ctx, "holes", v);
 
-  // (b) + (c)
-  let unis: &[u8] = if ctx.quick() { &[0] } else { &[0, 1] };
-  for &uni in unis {
+  // (b) + (c): ordered batches of length 0..=2 (quick) / 0..=3 (thorough) on the 4-index universe; thorough adds
+  // the 5-index universe with batches of length 0..=2
+  let runs: &[(u8, u8)] = if ctx.quick() { &[(0, 2)] } else { &[(0, 3), (1, 2)] };
+  for &(uni, max_len) in runs {
     for kind in 0..2u8 {
       for init in 0..2u8 {
         let name = format!(
-          "history {} start={} universe={:?}",
+          "history {} start={} universe={:?} ordered batches of length 0..={max_len} ({} per op and service)",
           if kind == 0 { "CoreDocument" } else { "IotaDocument" },
           if init == 0 { "fresh" } else { "legacy" },
-          universe(uni)
+          universe(uni),
+          batch_count(uni, max_len)
         );
-        let st = vx::sr::run(ctx, &name, None, |col| HModel::new(kind, init, uni, col));
+        let st = vx::sr::run(ctx, &name, None, |col| HModel::new(kind, init, uni, max_len, col));
         for i in 0..st.unique {
           ctx.distinct(&("hist", uni, kind, init, i));
         }
@@ -940,8 +1008,9 @@ fn generate(ctx: &Ctx) {
   }
   ctx.bound("max_set_size", max);
   ctx.bound("subset_universe", U12);
-  ctx.bound("history_universe_quick", UNI4);
+  ctx.bound("history_universe", UNI4);
   ctx.bound("history_universe_thorough_extra", UNI5);
+  ctx.bound("history_batches", ctx.by_tier("every ordered sequence (duplicates allowed) of length 0..=2 over the universe", "length 0..=3 over the 4-index universe, 0..=2 over the 5-index universe"));
   ctx.bound("history_depth", "closure");
 }
 
